@@ -1,6 +1,6 @@
-\* all fact combinations without failing reads: 6,060 initial states, 12,120 distinct states
+\* every fact combination (6,060), ordinary-sender combinations additionally with every single failing read: 8,750 initial states, 17,500 distinct states
 SPECIFICATION Spec
-CONSTANTS FailsOn = FALSE
+CONSTANTS FailScope = "ordinary"
 INVARIANTS TypeOK C36_SystemBypass C36_DisbandTerminal C36_Precedence C36_ErrorsOnlyWhenConsulted
 PROPERTIES C36_PathsAgree
 CHECK_DEADLOCK FALSE
